@@ -27,7 +27,9 @@ NANV = [[0, 0], [0, 0]]
 
 def check_program(ctx, line, sp, events, profile, stage):
     e = line['prog']
-    sig0 = {'profile': profile, 'top': U.top2(e), 'size': 'big' if sp.big else 'small'}
+    _js = json.dumps(e)
+    sig0 = {'profile': profile, 'top': U.top2(e), 'size': 'big' if sp.big else 'small',
+            'functional_on_field': 'yes' if ('"t": "smul"' in _js and any('"t": "%s"' % k in _js for k in ('l2sq', 'l1', 'linfn'))) else 'no'}
     detail0 = {'stage': stage, 'line': line, 'profile': profile, 'big': sp.big}
     nontriv = U.n_comb(e) >= 2 or U.has_nonlinear_leaf(e)
     # spelling: every other program is built with the @ operator instead of * (alternating with the size class)
